@@ -665,6 +665,7 @@ class ExcludeRegionState(object):  # pylint: disable=too-many-instance-attribute
             deltaE = 0
 
         isMove = False
+        priorZ = self.position.Z_AXIS.current
 
         if (finalZ is not None):
             self.position.Z_AXIS.setLogicalPosition(finalZ)
@@ -700,7 +701,12 @@ class ExcludeRegionState(object):  # pylint: disable=too-many-instance-attribute
             # for Marlin 1.1.9).
             returnCommands = self._processNonMove(cmd, deltaE)
         elif (self.isAnyPointExcluded(*xyPairs)):
+            wasExcluding = self.excluding
             returnCommands = self._processExcludedMove(cmd, deltaE)
+            if (self.excluding and not wasExcluding and self.lastPosition is not None):
+                # The move that enters the region is never sent, so the printer is still at the Z
+                # height it had before this command.
+                self.lastPosition.Z_AXIS.current = priorZ
         elif (self.excluding):
             # Moving from an excluded region into a non-excluded region.
             # Processes the necessary commands to move the tool to the new position specified by the
@@ -825,13 +831,15 @@ class ExcludeRegionState(object):  # pylint: disable=too-many-instance-attribute
         )
 
         newZ = self.position.Z_AXIS.nativeToLogical()
-        oldZ = self.lastPosition.Z_AXIS.nativeToLogical()
+        # Compare the physical heights (mm): the logical values may be expressed in different
+        # units or offsets if those changed while excluding.
+        zDelta = self.position.Z_AXIS.current - self.lastPosition.Z_AXIS.current
         moveZcmd = "G0 F{f} Z{z}".format(
             f=self.feedRate / self.feedRateUnitMultiplier,
             z=newZ
         )
 
-        if (newZ > oldZ):
+        if (zDelta > 0):
             # Move Z axis _up_ to new position
             # (hopefully help avoid hitting any part we may pass over)
             returnCommands.append(moveZcmd)
@@ -846,7 +854,7 @@ class ExcludeRegionState(object):  # pylint: disable=too-many-instance-attribute
             )
         )
 
-        if (newZ < oldZ):
+        if (zDelta < 0):
             # Move Z axis _down_ to new position
             # (hopefully we avoided hitting any part we may pass over)
             returnCommands.append(moveZcmd)
